@@ -871,6 +871,23 @@ func vfbScan(s chain.Store) ([]*common.Beacon, error) {
 	return out, err
 }
 
+// vfbScanStable scans a store that may still be written to (the in-memory ring of a running node: its cursor is an
+// index into a slice that shifts when a Put pushes the oldest round out, so a scan that overlaps a Put can step over
+// an element): scans are repeated until two in a row return the same rounds.
+func vfbScanStable(s chain.Store) ([]*common.Beacon, error) {
+	var last []*common.Beacon
+	var lastErr error
+	for i := 0; i < 8; i++ {
+		a, err := vfbScan(s)
+		if i > 0 && fmt.Sprint(vfbRoundsOf(a)) == fmt.Sprint(vfbRoundsOf(last)) {
+			return a, err
+		}
+		last, lastErr = a, err
+		time.Sleep(20 * time.Millisecond)
+	}
+	return last, lastErr
+}
+
 func vfbRoundsOf(bs []*common.Beacon) []uint64 {
 	var r []uint64
 	for _, b := range bs {
